@@ -1,15 +1,117 @@
-(* C14 - WHERE filtering follows SQL three-valued logic.  Property theorems only. *)
+(* C14 - WHERE filtering follows SQL three-valued logic.  Property theorems only.
+   Reference semantics: Model/SqlSpec.v (eval / sem3 / filter_spec, Kleene logic).
+   Implementation model: Model/PredImpl.v (eval_expr = the bool evaluator of FilterExec,
+   eval_value = evaluate_to_value of the select list, try_fold / fold_iter = ConstantFoldingRule,
+   reparse_bare = the parser's NOT precedence).  Finding classes: Model/PredClass.v. *)
 From Coq Require Import ZArith List Bool Permutation.
-From TV Require Import Model.SqlSpec Proof.SqlSpecLaws.
+From TV Require Import Model.SqlSpec Model.PredImpl Model.PredClass
+  Proof.SqlSpecLaws Proof.PredLike Proof.PredWhere Proof.PredFold Proof.PredSelect Proof.PredRefute.
 Import ListNotations.
 Open Scope Z_scope.
 
-(* the reference semantics is a Kleene algebra and satisfies ternary-logic partitioning *)
+(* ---- the reference semantics is a Kleene algebra (used by C19 as well) *)
+Theorem sem3_laws :
+  (forall a r, sem3 (ENot (ENot a)) r = sem3 a r) /\
+  (forall a b r, sem3 (ENot (EAnd a b)) r = sem3 (EOr (ENot a) (ENot b)) r) /\
+  (forall a b r, sem3 (ENot (EOr a b)) r = sem3 (EAnd (ENot a) (ENot b)) r) /\
+  (forall a b r, sem3 (EAnd a b) r = sem3 (EAnd b a) r) /\
+  (forall a b r, sem3 (EOr a b) r = sem3 (EOr b a) r) /\
+  (forall a b c r, sem3 (EAnd a (EAnd b c)) r = sem3 (EAnd (EAnd a b) c) r) /\
+  (forall a b c r, sem3 (EOr a (EOr b c)) r = sem3 (EOr (EOr a b) c) r).
+Proof.
+  exact (conj sem3_double_negation (conj sem3_de_morgan_and (conj sem3_de_morgan_or
+        (conj sem3_and_comm (conj sem3_or_comm (conj sem3_and_assoc sem3_or_assoc)))))).
+Qed.
+
+(* ---- ternary-logic partitioning: p, NOT p and p IS NULL split every table (as a bag) *)
 Theorem tlp_partition :
   forall p t, defined_on p t = true ->
     Permutation (filter_spec p t ++ filter_spec (ENot p) t ++ filter_spec (EIsNull false p) t) t.
 Proof. exact SqlSpecLaws.tlp_partition. Qed.
 
+(* ---- the LIKE matcher (greedy loop with one backtrack point) equals the declarative
+        semantics of % and _ unless both the text and the pattern contain a '%' byte *)
+Theorem like_match_spec :
+  forall s q, has_pct s && has_pct q = false -> like_impl s q = Some (like_spec q s).
+Proof. exact like_impl_correct. Qed.
+
+(* ---- FilterExec keeps a row iff the predicate is TRUE: for every expression and row outside
+        the recorded finding classes, wherever the reference semantics is defined *)
+Theorem filter_correct :
+  forall e r t, cls_p e r = 0 -> sem3 e r = Some t -> eval_expr e r = Ok (tv_is_true t).
+Proof. exact where_row_correct. Qed.
+
+(* ---- the whole statement SELECT * FROM t WHERE e (parser precedence, constant folding,
+        row-by-row filtering) returns exactly the rows on which e is TRUE *)
+Theorem where_correct :
+  forall sty e t, cls_where sty e t = 0 -> defined_on e t = true ->
+    model_where (parsed sty e) t = MOut (QRows (spec_rows e t)).
+Proof. exact PredSelect.where_correct. Qed.
+
+(* ---- select list: evaluate_to_value yields the reference TRUE / FALSE (outside the classes no
+        sub-predicate is UNKNOWN on the row) *)
+Theorem select_value_correct :
+  forall e r t, cls_s e r = 0 -> sem3 e r = Some t ->
+    t <> UU /\ eval_value e r = Ok (Some (ib (tv_is_true t))).
+Proof. exact select_row_correct. Qed.
+
+Theorem select_correct :
+  forall sty e t, cls_select sty e t = 0 -> defined_on e t = true ->
+    model_select (parsed sty e) t = MOut (QVals (spec_vals e t)).
+Proof. exact PredSelect.select_correct. Qed.
+
+(* ---- none of the class hypotheses can be dropped: each recorded class contains a query on which
+        the faithful model of the code contradicts the reference (the witnesses of
+        known_findings.d/C14.json, re-run on the real Database by every check) *)
+Theorem known_classes_refuted :
+  (exists e t, where_wrong 0 1 e t) /\ (exists e t, where_wrong 0 2 e t) /\
+  (exists e t, where_wrong 0 3 e t) /\ (exists e t, where_wrong 0 4 e t) /\
+  (exists e t, where_wrong 0 5 e t) /\ (exists e t, select_wrong 0 6 e t) /\
+  (exists e t, where_wrong 0 7 e t) /\ (exists e t, where_wrong 0 8 e t) /\
+  (exists e t, where_wrong 0 9 e t) /\ (exists e t, where_wrong 0 10 e t) /\
+  (exists e t, where_wrong 0 11 e t) /\ (exists e t, where_wrong 1 12 e t).
+Proof. exact PredRefute.known_classes_refuted. Qed.
+
+(* ---- non-vacuity: queries over a table with NULLs that are outside every class, defined, and
+        keep some rows and drop others (so the hypotheses of where_correct / select_correct are
+        satisfiable by interesting inputs) *)
+Example c14_witness :
+  cls_where 0 good1 T3 = 0 /\ defined_on good1 T3 = true /\ spec_rows good1 T3 = [1; 0; 1] /\
+  cls_where 0 good2 T3 = 0 /\ defined_on good2 T3 = true /\ spec_rows good2 T3 = [1; 1; 0] /\
+  cls_select 0 (EIsNull true (ECol 1)) T3 = 0 /\ spec_vals (EIsNull true (ECol 1)) T3 = [1; 1; 0].
+Proof. exact good_examples. Qed.
+
+Check sem3_laws :
+  (forall a r, sem3 (ENot (ENot a)) r = sem3 a r) /\
+  (forall a b r, sem3 (ENot (EAnd a b)) r = sem3 (EOr (ENot a) (ENot b)) r) /\
+  (forall a b r, sem3 (ENot (EOr a b)) r = sem3 (EAnd (ENot a) (ENot b)) r) /\
+  (forall a b r, sem3 (EAnd a b) r = sem3 (EAnd b a) r) /\
+  (forall a b r, sem3 (EOr a b) r = sem3 (EOr b a) r) /\
+  (forall a b c r, sem3 (EAnd a (EAnd b c)) r = sem3 (EAnd (EAnd a b) c) r) /\
+  (forall a b c r, sem3 (EOr a (EOr b c)) r = sem3 (EOr (EOr a b) c) r).
 Check tlp_partition : forall p t, defined_on p t = true ->
     Permutation (filter_spec p t ++ filter_spec (ENot p) t ++ filter_spec (EIsNull false p) t) t.
+Check like_match_spec : forall s q, has_pct s && has_pct q = false -> like_impl s q = Some (like_spec q s).
+Check filter_correct : forall e r t, cls_p e r = 0 -> sem3 e r = Some t -> eval_expr e r = Ok (tv_is_true t).
+Check where_correct : forall sty e t, cls_where sty e t = 0 -> defined_on e t = true ->
+    model_where (parsed sty e) t = MOut (QRows (spec_rows e t)).
+Check select_value_correct : forall e r t, cls_s e r = 0 -> sem3 e r = Some t ->
+    t <> UU /\ eval_value e r = Ok (Some (ib (tv_is_true t))).
+Check select_correct : forall sty e t, cls_select sty e t = 0 -> defined_on e t = true ->
+    model_select (parsed sty e) t = MOut (QVals (spec_vals e t)).
+Check known_classes_refuted :
+  (exists e t, where_wrong 0 1 e t) /\ (exists e t, where_wrong 0 2 e t) /\
+  (exists e t, where_wrong 0 3 e t) /\ (exists e t, where_wrong 0 4 e t) /\
+  (exists e t, where_wrong 0 5 e t) /\ (exists e t, select_wrong 0 6 e t) /\
+  (exists e t, where_wrong 0 7 e t) /\ (exists e t, where_wrong 0 8 e t) /\
+  (exists e t, where_wrong 0 9 e t) /\ (exists e t, where_wrong 0 10 e t) /\
+  (exists e t, where_wrong 0 11 e t) /\ (exists e t, where_wrong 1 12 e t).
+
+Print Assumptions sem3_laws.
 Print Assumptions tlp_partition.
+Print Assumptions like_match_spec.
+Print Assumptions filter_correct.
+Print Assumptions where_correct.
+Print Assumptions select_value_correct.
+Print Assumptions select_correct.
+Print Assumptions known_classes_refuted.
